@@ -544,6 +544,69 @@ def fn_makeGenbankOriginParser_func1 : List Line := [
   (1, "return", "nil")   -- originSub: `pure …`
 ]
 
+/-- `init` — `GenBank.Registry.typeOf` looks names up by MEMBERSHIP; the code keeps the three lists sorted for `searchString` (`Gts.Bridge.searchString_mem`: on a sorted list the binary search is membership) -/
+def fn_init : List Line := [
+  (0, "func", "()"),
+  (1, "call", "sort.Strings(QuotedQualifierNames)"),   -- Registry.default: `quoted` (sorted here, any order in the model)
+  (1, "call", "sort.Strings(LiteralQualifierNames)"),   -- Registry.default: `literal`
+  (1, "call", "sort.Strings(ToggleQualifierNames)")   -- Registry.default: `toggle`
+]
+
+/-- `RegisterQuotedQualifier` — `GenBank.Registry.addQuoted`: `{ reg with quoted := n :: reg.quoted }` — append and re-sort keeps every member (seeded C01-g lost one) -/
+def fn_RegisterQuotedQualifier : List Line := [
+  (0, "func", "(ss0 ...string)"),
+  (1, "assign", "QuotedQualifierNames = append(QuotedQualifierNames, ss0...)"),   -- Registry.addQuoted: `n :: reg.quoted` (every old member stays)
+  (1, "call", "sort.Strings(QuotedQualifierNames)")   -- Registry.addQuoted: sorted again, so that `searchString` is membership
+]
+
+/-- `RegisterLiteralQualifier` — `GenBank.Registry.addLiteral` -/
+def fn_RegisterLiteralQualifier : List Line := [
+  (0, "func", "(ss0 ...string)"),
+  (1, "assign", "LiteralQualifierNames = append(LiteralQualifierNames, ss0...)"),   -- Registry.addLiteral: `n :: reg.literal`
+  (1, "call", "sort.Strings(LiteralQualifierNames)")   -- Registry.addLiteral: sorted again
+]
+
+/-- `RegisterToggleQualifier` — `GenBank.Registry.addToggle` -/
+def fn_RegisterToggleQualifier : List Line := [
+  (0, "func", "(ss0 ...string)"),
+  (1, "assign", "ToggleQualifierNames = append(ToggleQualifierNames, ss0...)"),   -- Registry.addToggle: `n :: reg.toggle`
+  (1, "call", "sort.Strings(ToggleQualifierNames)")   -- Registry.addToggle: sorted again
+]
+
+/-- `searchString` — `GenBank.Registry.typeOf`: `name ∈ list`; regenerated as a FUNCTION (`Gts.Gen.searchString`) and proved to be membership on a sorted list (`Gts.Bridge.searchString_mem`) -/
+def fn_searchString : List Line := [
+  (0, "func", "(s0 string, ss0 []string) bool"),
+  (1, "if", "len(ss0) == 0"),   -- typeOf: `name ∈ …` on the empty list
+  (2, "return", "false"),   -- typeOf: false
+  (1, "assign", "v0 := len(ss0) / 2"),   -- searchString_mem: the middle `n < len(ss)`
+  (1, "assign", "v1, v2, v3 := ss0[:v0], ss0[v0], ss0[v0 + 1:]"),   -- searchString_mem: `ss = ss.take n ++ ss[n] :: ss.drop (n + 1)`
+  (1, "switch", ""),   -- searchString_mem: three cases
+  (2, "case", "s0 < v2"),   -- searchString_mem: `lt s m`: not in the right half (sorted), search the left half
+  (3, "return", "searchString(s0, v1)"),   -- searchString_mem: the left half
+  (2, "case", "s0 > v2"),   -- searchString_mem: `lt m s`: not in the left half
+  (3, "return", "searchString(s0, v3)"),   -- searchString_mem: the right half
+  (2, "default", ""),   -- searchString_mem: neither: `s = m` (`<` is total)
+  (3, "return", "true")   -- typeOf: true
+]
+
+/-- `IsQuotedQualifier` — `GenBank.Registry.typeOf`: `name ∈ reg.quoted` -/
+def fn_IsQuotedQualifier : List Line := [
+  (0, "func", "(s0 string) bool"),
+  (1, "return", "searchString(s0, QuotedQualifierNames)")   -- typeOf: `name ∈ reg.quoted`
+]
+
+/-- `IsLiteralQualifier` — `GenBank.Registry.typeOf`: `name ∈ reg.literal` -/
+def fn_IsLiteralQualifier : List Line := [
+  (0, "func", "(s0 string) bool"),
+  (1, "return", "searchString(s0, LiteralQualifierNames)")   -- typeOf: `name ∈ reg.literal`
+]
+
+/-- `IsToggleQualifier` — `GenBank.Registry.typeOf`: `name ∈ reg.toggle` -/
+def fn_IsToggleQualifier : List Line := [
+  (0, "func", "(s0 string) bool"),
+  (1, "return", "searchString(s0, ToggleQualifierNames)")   -- typeOf: `name ∈ reg.toggle`
+]
+
 /-- `GetQualifierType` — `GenBank.Registry.typeOf`: quoted, literal, toggle, else unknown — in this order -/
 def fn_GetQualifierType : List Line := [
   (0, "func", "(s0 string) QualifierType"),
@@ -875,6 +938,14 @@ def fns : List (String × List Line) := [
   ("makeGenbankOriginParser", fn_makeGenbankOriginParser),
   ("makeGenbankOriginParser/func0", fn_makeGenbankOriginParser_func0),
   ("makeGenbankOriginParser/func1", fn_makeGenbankOriginParser_func1),
+  ("init", fn_init),
+  ("RegisterQuotedQualifier", fn_RegisterQuotedQualifier),
+  ("RegisterLiteralQualifier", fn_RegisterLiteralQualifier),
+  ("RegisterToggleQualifier", fn_RegisterToggleQualifier),
+  ("searchString", fn_searchString),
+  ("IsQuotedQualifier", fn_IsQuotedQualifier),
+  ("IsLiteralQualifier", fn_IsLiteralQualifier),
+  ("IsToggleQualifier", fn_IsToggleQualifier),
   ("GetQualifierType", fn_GetQualifierType),
   ("qualifierNameParser", fn_qualifierNameParser),
   ("qualifierNameParser/func0", fn_qualifierNameParser_func0),
